@@ -88,6 +88,10 @@ func ScramSHA256PlusAuth(username, password string, tlsConnState *tls.Connection
 
 // Start initializes the SCRAM authentication process and returns the selected algorithm, nil data, and no error.
 func (a *scramAuth) Start(_ *ServerInfo) (string, []byte, error) {
+	// Every exchange starts from a clean state. A previous exchange with the same Auth value may
+	// have ended without Next being called again (e. g. the server rejected it with a 5xx reply),
+	// leaving its nonce and its verified server signature behind
+	a.reset()
 	return a.algorithm, nil, nil
 }
 
